@@ -372,3 +372,60 @@ fire("C19", "difference-gap-is-stride", "R19.4", E(WK, "difference_kernel", "res
 fire("C19", "difference-transformer-width", "R19.4", E(SW, "SequentialDifferenceTransformer.fit", "window_width=self.stride + 1,", "window_width=self.stride,"),
      "window too narrow for a difference over `stride` positions")
 silent("C19", "difference-commuted", E(WK, "difference_kernel", "result[i, start + i * stride + step] = 1", "result[i, step + stride * i + start] = 1"), "same column, operands commuted")
+
+# --- C08: definite assignment over the format / reference dispatch (found by R8.5, repaired in 85bd1b1)
+fire("C08", "block-size-unassigned-wasserstein", "R8.5", E(LOT, "WassersteinVectorizer.fit", "                    self.reference_vectors_ = reference_vectors\n                    lot_dimension = self.reference_vectors_.size\n                    block_size = max(1, memory_size // (lot_dimension * 8))\n", "                    self.reference_vectors_ = reference_vectors\n"),
+     "revert of 85bd1b1 (WassersteinVectorizer)")
+fire("C08", "block-size-unassigned-sinkhorn", "R8.5", E(LOT, "SinkhornVectorizer.fit", "                self.reference_vectors_ = reference_vectors\n                lot_dimension = self.reference_vectors_.size\n                block_size = max(1, memory_size // (lot_dimension * 8))\n", "                self.reference_vectors_ = reference_vectors\n"),
+     "revert of 85bd1b1 (SinkhornVectorizer)")
+
+# --- C01: the validity mask moved into a helper (seeded r2_C01)
+_EL_HELPER = '''    def _valid_edges(self, edge_list):
+        if %s:
+            valid_rows = np.repeat(True, edge_list.shape[0])
+        else:
+            valid_rows = np.isin(edge_list[:, 0], list(self.row_label_dictionary_.keys()))
+        valid_cols = np.isin(edge_list[:, 1], list(self.column_label_dictionary_.keys()))
+        return valid_rows & valid_cols
+
+    def fit(self, X, y=None, **fit_params):
+'''
+_EL_TR_OLD = '''        valid_rows = np.isin(edge_list[:, 0], list(self.row_label_dictionary_.keys()))
+        valid_cols = np.isin(
+            edge_list[:, 1], list(self.column_label_dictionary_.keys())
+        )
+        valid_edges = valid_rows & valid_cols
+'''
+fire("C01", "edgelist-mask-helper-keeps-fit-shortcut", "R1.4",
+     [E(EL, "EdgeListVectorizer", "    def fit(self, X, y=None, **fit_params):\n", _EL_HELPER % "self.row_label_dictionary is None"),
+      E(EL, "EdgeListVectorizer.transform", _EL_TR_OLD, "        valid_edges = self._valid_edges(edge_list)\n")],
+     "seeded r2_C01: the shared helper skips the row filter when the dictionary was learned - valid for the training edges only")
+silent("C01", "edgelist-mask-helper", 
+       [E(EL, "EdgeListVectorizer", "    def fit(self, X, y=None, **fit_params):\n",
+          "    def _valid_edges(self, edge_list):\n        valid_rows = np.isin(edge_list[:, 0], list(self.row_label_dictionary_.keys()))\n"
+          "        valid_cols = np.isin(edge_list[:, 1], list(self.column_label_dictionary_.keys()))\n        return valid_rows & valid_cols\n\n"
+          "    def fit(self, X, y=None, **fit_params):\n"),
+        E(EL, "EdgeListVectorizer.transform", _EL_TR_OLD, "        valid_edges = self._valid_edges(edge_list)\n")],
+       "the same de-duplication with a helper that always filters")
+
+# --- C06 / C02: the duplicated n-gram look-up loop (seeded r2_C02; R6.5 known finding)
+silent("C06", "subgram-keys-repaired", [E(NG, "NgramVectorizer.fit", "                    if len(index_gram) == 1:", "                    if self.ngram_size == 1:"),
+                                       E(NG, "NgramVectorizer.transform", "                    if len(index_gram) == 1:", "                    if self.ngram_size == 1:")],
+       "the repair of the known finding R6.5 (both copies): nothing new may be reported")
+silent("C02", "subgram-keys-repaired", [E(NG, "NgramVectorizer.fit", "                    if len(index_gram) == 1:", "                    if self.ngram_size == 1:"),
+                                       E(NG, "NgramVectorizer.transform", "                    if len(index_gram) == 1:", "                    if self.ngram_size == 1:")],
+       "both copies of the look-up loop changed alike")
+fire("C02", "subgram-keys-transform-only", "R2.8", E(NG, "NgramVectorizer.transform", "                    if len(index_gram) == 1:", "                    if self.ngram_size == 1:"),
+     "seeded r2_C02: only the transform copy changed - fit drops the unigrams of subgrams mode, transform counts them")
+fire("C02", "lookup-loop-fit-only", "R2.8", E(NG, "NgramVectorizer.fit", "                    if not (self.nullify_mask and col_index is self._mask_ngram_index):", "                    if not self.nullify_mask:"),
+     "only the fit copy changed")
+
+# --- C13 / C03: refit carries state (seeded r2_C03)
+fire("C13", "delta-mean-not-reset", "R13.5", E(TIMED, "TimedTokenCooccurrenceVectorizer._set_additional_params", "        self.delta_mean_ = 0.0\n", ""),
+     "seeded r2_C03: the accumulator is initialised in __init__ only")
+fire("C03", "delta-mean-not-reset", "R3.7", E(TIMED, "TimedTokenCooccurrenceVectorizer._set_additional_params", "        self.delta_mean_ = 0.0\n", ""),
+     "seeded r2_C03: the second fit's mean gap includes the first fit's")
+silent("C13", "delta-mean-local-accumulator", [E(TIMED, "TimedTokenCooccurrenceVectorizer._set_additional_params", "        self.delta_mean_ = 0.0\n", "        gap_sum = 0.0\n"),
+                                              E(TIMED, "TimedTokenCooccurrenceVectorizer._set_additional_params", "self.delta_mean_ += ", "gap_sum += "),
+                                              E(TIMED, "TimedTokenCooccurrenceVectorizer._set_additional_params", "self.delta_mean_ /= total_t", "self.delta_mean_ = gap_sum / total_t")],
+       "the accumulator as a local, the attribute assigned once")
